@@ -143,7 +143,9 @@ func scenario(k int) {
 		run.Inconclusive("session: " + err.Error())
 		return
 	}
-	defer s.Close()
+	var closeOnce sync.Once
+	closeSession := func() { closeOnce.Do(func() { s.Close() }) }
+	defer closeSession()
 	log := &evlog.Log{}
 	var seedAddr string
 	var wg sync.WaitGroup
@@ -187,7 +189,7 @@ func scenario(k int) {
 				}()
 			}
 		}()
-		defer func() { close(stopAcc); ln.Close(); wg.Wait() }()
+		defer func() { closeSession(); close(stopAcc); ln.Close(); wg.Wait() }()
 	}
 	tb := gen.TorrentBytes(info, [][]string{{ht.URL}, {ut.URL}}, nil)
 	t, err := s.AddTorrent(bytes.NewReader(tb), &torrent.AddTorrentOptions{ID: tid, Stopped: true})
